@@ -2002,6 +2002,7 @@ archive_write_disk_new(void)
 	/* We're ready to write a header immediately. */
 	a->archive.state = ARCHIVE_STATE_HEADER;
 	a->archive.vtable = &archive_write_disk_vtable;
+	a->fd = -1;
 	a->start_time = time(NULL);
 	/* Query and restore the umask. */
 	umask(a->user_umask = umask(0));
@@ -2655,8 +2656,35 @@ _archive_write_disk_free(struct archive *_a)
 	    ARCHIVE_STATE_ANY | ARCHIVE_STATE_FATAL, "archive_write_disk_free");
 	a = (struct archive_write_disk *)_a;
 	ret = _archive_write_disk_close(&a->archive);
-	archive_write_disk_set_group_lookup(&a->archive, NULL, NULL, NULL);
-	archive_write_disk_set_user_lookup(&a->archive, NULL, NULL, NULL);
+	if (a->archive.state == ARCHIVE_STATE_FATAL) {
+		/*
+		 * close() refuses a failed handle, so nothing has been
+		 * released yet: drop the file being restored and the
+		 * deferred fixups without touching the disk any further.
+		 */
+		struct fixup_entry *p, *next;
+
+		if (a->fd >= 0) {
+			close(a->fd);
+			a->fd = -1;
+			if (a->tmpname != NULL)
+				unlink(a->tmpname);
+		}
+		a->tmpname = NULL;
+		for (p = a->fixup_list; p != NULL; p = next) {
+			next = p->next;
+			archive_acl_clear(&p->acl);
+			free(p->mac_metadata);
+			free(p->name);
+			free(p);
+		}
+		a->fixup_list = NULL;
+	}
+	/* The lookup setters refuse a failed handle too; clean up directly. */
+	if (a->cleanup_gid != NULL && a->lookup_gid_data != NULL)
+		(a->cleanup_gid)(a->lookup_gid_data);
+	if (a->cleanup_uid != NULL && a->lookup_uid_data != NULL)
+		(a->cleanup_uid)(a->lookup_uid_data);
 	archive_entry_free(a->entry);
 	archive_string_free(&a->_name_data);
 	archive_string_free(&a->_tmpname_data);
